@@ -313,13 +313,17 @@ def cut_member_part(ctx, rnd):
                 A2 = H.build(a.m) + H.build(dict(mB, data=packed[:cut])) + b'\0'                  # the member's own data stops inside a command
                 for A in (A1, A2):
                     for hn, ops in hist.items():
-                        jobs.append((m, cut, len(packed), hn, A, ops))
+                        jobs.append((m, cut, len(packed), hn, A, ops, None))
+                    # and the same history twice with stack and fresh heap blocks pre-filled differently (see C14's differential)
+                    jobs.append((m, cut, len(packed), 'read, memory pre-filled 00', A, hist['read'], dech.fill_env(0x00)))
+                    jobs.append((m, cut, len(packed), 'read, memory pre-filled a5', A, hist['read'], dech.fill_env(0xa5)))
 
     def one(j):
-        m, cut, total, hn, A, ops = j
+        m, cut, total, hn, A, ops, env = j
         sh = core.Shard()
-        c = rdh.RCase(A, ops, kind=rnd_kind[(cut + len(hn)) % 2], flags=rdh.F_FULLDATA, meta=hn)
-        res = rdh.run_batch(_EXE, [c], sh, label='c15cut%d' % (id(j) % 100000), on_crash=lambda c_, cls, key, err: sh.violation('C15-crash:' + key, err[-600:], c_.archive))
+        c = rdh.RCase(A, ops, kind=rnd_kind[cut % 2], flags=rdh.F_FULLDATA, meta=hn)
+        res = rdh.run_batch(_EXE, [c], sh, label='c15cut%d' % (id(j) % 100000), on_crash=lambda c_, cls, key, err: sh.violation('C15-crash:' + key, err[-600:], c_.archive),
+                            env_extra=env)
         ev = res.get(c.id) or []
         d = [dd for k, dd in ev if k == 'readall']
         return j, sh, (d[-1]['data'] if d else None)
